@@ -13,6 +13,7 @@ mod rng;
 mod apply_engine;
 mod dist_engine;
 mod path_engine;
+mod parse_engine;
 
 use std::io::Write;
 
@@ -39,6 +40,8 @@ fn main() {
         "dist-replay" => dist_engine::replay(&mut out, &opts),
         "path" => path_engine::run(&mut out, seed, n, &opts),
         "path-replay" => path_engine::replay(&mut out, &opts),
+        "parse" => parse_engine::run(&mut out, seed, n, &opts),
+        "parse-replay" => parse_engine::replay(&mut out, &opts),
         "fuzzpair" => apply_engine::run_pairs(&mut out, seed, n, &opts),
         "fuzzpair-replay" => apply_engine::replay_pairs(&mut out, &opts),
         other => { eprintln!("unknown engine {}", other); std::process::exit(2); }
